@@ -416,6 +416,19 @@ class C07(Monitor):
 class C09(Monitor):
     """declared native amounts must equal the attached funds exactly."""
 
+    @staticmethod
+    def declared_natives(op):
+        sem = op["sem"]
+        declared = []
+        if op["kind"] == "swap":
+            if sem["named"][0] == "n":
+                declared.append((sem["named"][1], sem["named_amt"]))
+        else:
+            for a in op["msg"]["provide_liquidity"]["assets"]:
+                if "native_token" in a["info"]:
+                    declared.append((a["info"]["native_token"]["denom"], int(a["amount"])))
+        return declared
+
     def on_step(self, st):
         w, acc = self.w, self.acc
         op = st.op
@@ -424,17 +437,8 @@ class C09(Monitor):
             return
         sem = op["sem"]
         p = sem["pair"]
-        declared = []
-        if kind == "swap":
-            if sem["named"][0] == "n":
-                declared.append((sem["named"][1], sem["named_amt"]))
-            entry = sem["entry"]
-        else:
-            entry = "provide"
-            named_assets = []
-            for a in op["msg"]["provide_liquidity"]["assets"]:
-                if "native_token" in a["info"]:
-                    declared.append((a["info"]["native_token"]["denom"], int(a["amount"])))
+        declared = self.declared_natives(op)
+        entry = sem["entry"] if kind == "swap" else "provide"
         if not declared:
             return
         attached = {}
